@@ -142,8 +142,12 @@ def run_harness(ob, slots, log=lambda *a: None):
             r.update(status='undecided', reason='CBMC error/out of memory'); return r
         if 'unwind' in kinds:
             r.update(status='undecided', reason='unwinding assertion failed (bound too small): ' + kinds['unwind'][0]['loc'][-120:]); return r
-        relevant = list(kinds.get('harness', [])) + list(kinds.get('ub', []))
-        if ob.get('lib_panics', 'forbid') == 'forbid': relevant += kinds.get('libpanic', [])
+        if ob.get('only_ub'):
+            # C20 view of a harness shared with another property: only UB-class checks count here
+            relevant = list(kinds.get('ub', []))
+        else:
+            relevant = list(kinds.get('harness', [])) + list(kinds.get('ub', []))
+            if ob.get('lib_panics', 'forbid') == 'forbid': relevant += kinds.get('libpanic', [])
         if not relevant:
             if kinds.get('unsupported'):
                 r.update(status='undecided', reason='unsupported construct reachable: ' + kinds['unsupported'][0]['desc'][:100]); return r
@@ -169,7 +173,7 @@ def run_harness(ob, slots, log=lambda *a: None):
                        reproduced=bool(d['reproduced'] or rel['reproduced']))
             if cex['reproduced']: break
         r['cex'] = cex
-        only_ub = not kinds.get('harness') and not (ob.get('lib_panics', 'forbid') == 'forbid' and kinds.get('libpanic'))
+        only_ub = bool(ob.get('only_ub')) or (not kinds.get('harness') and not (ob.get('lib_panics', 'forbid') == 'forbid' and kinds.get('libpanic')))
         if cex and cex['reproduced']:
             r['status'] = 'violated'
         elif only_ub and cex is not None:
